@@ -15,8 +15,11 @@ def build_cases(tier, seed, salt, budget=None, with_empty=False):
             for form in op.forms:
                 if a.get("module_only") and form != "module":
                     continue
+                if a.get("functional_only") and form != "functional":
+                    continue
                 a2 = dict(a)
                 a2.pop("module_only", None)
+                a2.pop("functional_only", None)
                 if name.endswith("_loss") or name in ("bce_with_logits", "cross_entropy"):
                     a2["form_is_module"] = form == "module"
                     if form == "functional" and a2["reduction"] != "none":
